@@ -8,16 +8,19 @@ import (
 	"time"
 
 	"github.com/go-faster/errors"
-
 )
 
 type vDialer struct {
 	conn  *vConn
+	nc    net.Conn // when set, what the dial yields instead of conn
 	dials int
 }
 
 func (d *vDialer) DialContext(ctx context.Context, network, address string) (net.Conn, error) {
 	d.dials++
+	if d.nc != nil {
+		return d.nc, nil
+	}
 	return d.conn, nil
 }
 
@@ -191,6 +194,14 @@ func VerifC13Delay() {
 	if verifChoice("readtimeout", 2) == 1 {
 		opt.ReadTimeout = 5 * time.Second
 	}
-	c, err := Connect(context.Background(), conn, opt)
+	var c *Client
+	var err error
+	if verifChoice("via", 2) == 1 {
+		// the library dials itself: the time allowed for the dial is not the time allowed for the hello
+		opt.Dialer = &vDialer{nc: conn}
+		c, err = Dial(context.Background(), opt)
+	} else {
+		c, err = Connect(context.Background(), conn, opt)
+	}
 	verifAssert(err == nil && c != nil, "hello-before-handshake-timeout-accepted")
 }
